@@ -152,7 +152,7 @@ def run(ctx):
                         inner = rv[3][0][1] if rv[0] == "agg" and rv[2] == "Some" else None
                         ok = inner is not None and inner[0] == "call" and inner[1] in calc_names
                         ctx.check(ok, "R09.3", "%s|write-expiry-from-ttl" % n, "a rewritten expiry is Some(clock.now() + the requested ttl)", f.where(b, i), fmt(rv))
-    ctx.floor("R09.3", "sites storing an expiry", n_sites, 4)
+    ctx.floor("R09.3", "sites storing an expiry", n_sites, 2)
     # ---- R09.4 clock identity --------------------------------------------------------------------------
     def is_config_clock(g, x):
         if not (isinstance(x, tuple) and x and x[0] == "field" and x[2] == "clock"):
@@ -190,7 +190,7 @@ def run(ctx):
             n_clock += 1
             ctx.check(deep_trace(F, c, clk, is_config_clock), "R09.4", "%s|sweeper-clock-is-config-clock" % cdef,
                       "the sweeper reads the time from (a clone of) the configured clock", c.where(bb), fmt(clk))
-    ctx.floor("R09.4", "clock uses traced to the configuration", n_clock, 4)
+    ctx.floor("R09.4", "clock uses traced to the configuration", n_clock, 3)
     # ---- R09.5 value-returning lookups are filtered --------------------------------------------------------
     n_read = 0
     for f, bb, t in S.lookup_sites:
@@ -202,7 +202,7 @@ def run(ctx):
         ok, form = L.lookup_applies_liveness(f, bb, t)
         ctx.check(ok, "R09.5", "%s|read-filters-on-liveness" % f.name,
                   "a store lookup that returns the entry's value applies is_alive to the same entry (under the same shard guard) before returning it", f.where(bb), form)
-    ctx.floor("R09.5", "value-returning store lookups", n_read, 2)
+    ctx.floor("R09.5", "value-returning store lookups", n_read, 1)
     no_overwrite(ctx, "R09.7")
     # ---- R09.8 a TTL added, changed or removed by an upsert reaches the expiry index (shared with C08 R08.3/R08.8):
     #      otherwise the sweeper later acts on the old deadline and hides a key that is not expired
